@@ -491,6 +491,9 @@ func (vc *VC) execPanic(ins *ssa.Panic) {
 }
 
 func (vc *VC) modeName() string {
+	if vc.ringMode {
+		return "ring"
+	}
 	if vc.intMode {
 		return "int"
 	}
